@@ -758,8 +758,20 @@ impl ValveServer {
     }
 
     fn malformed(&self, cx: &mut Cx, kind: Kind) -> Vec<u8> {
-        match cx.draw(3) {
+        match cx.draw(4) {
             0 => vec![0xff, 0xff, 0xff],
+            3 if kind != Kind::Ffow => {
+                // a complete, valid reply - to another kind of request
+                let other = match kind {
+                    Kind::Info => Kind::Players,
+                    Kind::Players => Kind::Rules,
+                    _ => Kind::Players,
+                };
+                let mut d = vec![0xff, 0xff, 0xff, 0xff];
+                d.extend_from_slice(&self.payload_for(other));
+                d.truncate(1200);
+                d
+            }
             1 => {
                 // right header, mandatory fields missing
                 let k = match kind {
